@@ -272,6 +272,107 @@ class DefSorter(ast.NodeTransformer):
         return node
 
 
+def _names(e, ctxs):
+    return {n.id for n in ast.walk(e) if isinstance(n, ast.Name) and isinstance(n.ctx, ctxs)}
+
+
+class SwapIndep(ast.NodeTransformer):
+    """two adjacent assignments `a = e1 ; b = e2` to plain names with call-free right-hand sides that do not mention each other's target are exchanged"""
+
+    def __init__(self):
+        self.count = 0
+
+    def _simple(self, st):
+        return isinstance(st, ast.Assign) and len(st.targets) == 1 and isinstance(st.targets[0], ast.Name) \
+            and not any(isinstance(n, (ast.Call, ast.Subscript, ast.Lambda, ast.ListComp, ast.GeneratorExp, ast.DictComp, ast.SetComp, ast.NamedExpr, ast.Await, ast.Yield)) for n in ast.walk(st.value))
+
+    def generic_visit(self, node):
+        super().generic_visit(node)
+        if not isinstance(node, (ast.FunctionDef, ast.AsyncFunctionDef, ast.For, ast.While, ast.If, ast.With, ast.Try)):
+            return node
+        for fld in ("body", "orelse", "finalbody"):
+            blk = getattr(node, fld, None)
+            if not (isinstance(blk, list) and blk and isinstance(blk[0], ast.stmt)):
+                continue
+            i = 0
+            while i + 1 < len(blk):
+                a, b = blk[i], blk[i + 1]
+                if self._simple(a) and self._simple(b):
+                    ta, tb = a.targets[0].id, b.targets[0].id
+                    if ta != tb and ta not in _names(b.value, ast.Load) and tb not in _names(a.value, ast.Load):
+                        blk[i], blk[i + 1] = b, a
+                        self.count += 1
+                        i += 2
+                        continue
+                i += 1
+        return node
+
+
+class KwPerm(ast.NodeTransformer):
+    """keyword arguments of a call whose argument expressions are all names / attributes / constants are written in reverse order"""
+
+    def __init__(self):
+        self.count = 0
+
+    def visit_Call(self, node):
+        self.generic_visit(node)
+        if len(node.keywords) >= 2 and all(k.arg is not None for k in node.keywords) \
+                and all(not any(isinstance(n, (ast.Call, ast.Subscript, ast.NamedExpr, ast.Lambda, ast.Await)) for n in ast.walk(k.value)) for k in node.keywords) \
+                and all(not any(isinstance(n, (ast.Call, ast.NamedExpr)) for n in ast.walk(a)) for a in node.args):
+            node.keywords = list(reversed(node.keywords))
+            self.count += 1
+        return node
+
+
+class TrimSlice(ast.NodeTransformer):
+    """x[i, :] -> x[i] and x[i, j, :] -> x[i, j] (a trailing full slice of a numpy subscript selects nothing)"""
+
+    def __init__(self):
+        self.count = 0
+
+    def visit_Subscript(self, node):
+        self.generic_visit(node)
+        sl = node.slice
+        if isinstance(sl, ast.Tuple) and len(sl.elts) >= 2:
+            def full(e):
+                return isinstance(e, ast.Slice) and e.lower is None and e.upper is None and e.step is None
+            elts = list(sl.elts)
+            if full(elts[-1]) and not any(isinstance(e, ast.Constant) and e.value is Ellipsis for e in elts) \
+                    and not any(isinstance(e, ast.Constant) and e.value is None for e in elts):
+                while len(elts) > 1 and full(elts[-1]):
+                    elts.pop()
+                node.slice = elts[0] if len(elts) == 1 else ast.Tuple(elts=elts, ctx=ast.Load())
+                self.count += 1
+        return node
+
+
+class SplitTuple(ast.NodeTransformer):
+    """a, b = x, y  ->  a = x ; b = y when no right-hand side mentions a target, contains a call or a subscript"""
+
+    def __init__(self):
+        self.count = 0
+
+    def generic_visit(self, node):
+        super().generic_visit(node)
+        for fld in ("body", "orelse", "finalbody"):
+            blk = getattr(node, fld, None)
+            if not (isinstance(blk, list) and blk and isinstance(blk[0], ast.stmt)):
+                continue
+            out = []
+            for st in blk:
+                if isinstance(st, ast.Assign) and len(st.targets) == 1 and isinstance(st.targets[0], ast.Tuple) and isinstance(st.value, ast.Tuple) \
+                        and len(st.targets[0].elts) == len(st.value.elts) and all(isinstance(t, ast.Name) for t in st.targets[0].elts):
+                    tg = {t.id for t in st.targets[0].elts}
+                    if len(tg) == len(st.value.elts) and not any(isinstance(n, (ast.Call, ast.NamedExpr)) or (isinstance(n, ast.Name) and n.id in tg) for v in st.value.elts for n in ast.walk(v)):
+                        for t, v in zip(st.targets[0].elts, st.value.elts):
+                            out.append(ast.Assign(targets=[t], value=v, lineno=st.lineno, col_offset=st.col_offset))
+                        self.count += 1
+                        continue
+                out.append(st)
+            setattr(node, fld, out)
+        return node
+
+
 class Commuter(ast.NodeTransformer):
     """behaviour-preserving rewrites of expressions: a * b -> b * a (numbers / arrays / sequence repetition commute), a < b -> b > a, a == b -> b == a;
     positional arguments of calls to plain names are left alone.  Only inside function bodies."""
@@ -457,7 +558,7 @@ class Renamer(ast.NodeTransformer):
     visit_AsyncFunctionDef = visit_FunctionDef
 
 
-DESCR = ("npalias", "extract", "unelse", "negif", "negcmp", "strip", "npaxis", "npaxiskw", "defsort")
+DESCR = ("npalias", "extract", "unelse", "negif", "negcmp", "strip", "npaxis", "npaxiskw", "defsort", "swapindep", "kwperm", "trimslice", "splittuple")
 
 
 def build(suffix, mode="rename"):
@@ -493,6 +594,14 @@ def build(suffix, mode="rename"):
                 r = NpAlias()
             elif mode == "strip":
                 r = Stripper()
+            elif mode == "swapindep":
+                r = SwapIndep()
+            elif mode == "kwperm":
+                r = KwPerm()
+            elif mode == "trimslice":
+                r = TrimSlice()
+            elif mode == "splittuple":
+                r = SplitTuple()
             elif mode == "npaxis":
                 r = NpAxis()
             elif mode == "npaxiskw":
@@ -557,7 +666,7 @@ def main():
     elif mode == "inline":
         print("inlined copy: %d files, %d single-use pure temporaries substituted into the statement that follows them, re-emitted by ast.unparse" % (nf, nn))
     elif mode in DESCR:
-        print("%s copy: %d files, %d sites rewritten (%s), re-emitted by ast.unparse" % (mode, nf, nn, {"strip": "docstrings and annotations removed", "npaxis": "axis= keyword of numpy reductions made positional", "npaxiskw": "positional axis of numpy reductions made a keyword", "defsort": "methods re-ordered alphabetically", "npalias": "import numpy -> import numpy as np, numpy.x -> np.x", "extract": "returned / stored expressions moved into a fresh temporary", "unelse": "else branch after a terminal if-body de-nested", "negif": "if c: A else: B -> if not c: B else: A", "negcmp": "if a == b: A else: B -> if a != b: B else: A (also is / in)"}[mode]))
+        print("%s copy: %d files, %d sites rewritten (%s), re-emitted by ast.unparse" % (mode, nf, nn, {"strip": "docstrings and annotations removed", "swapindep": "adjacent independent call-free assignments exchanged", "kwperm": "keyword arguments written in reverse order", "trimslice": "trailing full slices dropped from subscripts", "splittuple": "tuple assignments of independent values split", "npaxis": "axis= keyword of numpy reductions made positional", "npaxiskw": "positional axis of numpy reductions made a keyword", "defsort": "methods re-ordered alphabetically", "npalias": "import numpy -> import numpy as np, numpy.x -> np.x", "extract": "returned / stored expressions moved into a fresh temporary", "unelse": "else branch after a terminal if-body de-nested", "negif": "if c: A else: B -> if not c: B else: A", "negcmp": "if a == b: A else: B -> if a != b: B else: A (also is / in)"}[mode]))
     elif mode == "kwcalls":
         print("keyword-call copy: %d files, %d calls of package functions / own methods rewritten from positional to keyword arguments, re-emitted by ast.unparse" % (nf, nn))
     else:
